@@ -145,6 +145,20 @@ void g_consume(g_world &W, Gen &g, vf::rng r, bool allow_sync, bool helper_resol
     W.consumer_done.store(1, std::memory_order_release);
 }
 
+// whole-sequence walks (no style mixing): range-for, and a post-increment walk (operator++(int) returns a holder of the current value
+// and advances in the same call). Only used for scripts that do not throw: with post-increment the advance that surfaces the
+// exception also swallows the holder of the previous value - one operation, not a defect.
+inline void g_consume_walk(g_world &W, cocls::generator<int> &g, int variant) {
+    W.styles_used.push_back(variant == 0 ? GS_ITER : GS_ITER);
+    try {
+        if (variant == 0) { for (int &v : g) W.got.push_back(v); }
+        else { for (auto it = g.begin(); it != g.end();) { auto z = it++; W.got.push_back(z._v); } } // holder member read directly: operator* of the holder does not compile (const method returning int&)
+        W.got.push_back(-1);
+    } catch (const vf::test_exc &e) { W.got.push_back(-1000 - e.code); }
+    catch (...) { W.got.push_back(-888888); }
+    W.consumer_done.store(1, std::memory_order_release);
+}
+
 // resolver loop run by both team threads: opens the pending futures in order once the body started to await them
 inline void g_resolver(g_world &W, uint64_t seed, int tid) {
     for (int k = 0; k < G_NPEND; k++) {
@@ -214,7 +228,9 @@ inline void generator_programs(const vf::opts &o, vf::report &R, vf::team &T, ui
         if (drop_mode == 1) W.max_items = 1 + (int)r.below(4);
         // style constraints: without a helper thread, pending awaits can only be completed by the consumer thread => async styles only
         bool allow_sync = mt || !has_pending;
-        std::string desc = std::string(with_arg ? "generator<int,int> " : "generator<int> ") + "[" + g_script_str(W.scripts[0]) + "] " + (mt ? "pending awaits completed by either thread" : "single thread") + (drop_mode == 0 ? " dropped before start" : drop_mode == 1 ? " dropped at a yield" : "");
+        bool script_throws = false; for (auto &op : W.scripts[0]) if (op.kind == GO_THROW) script_throws = true;
+        int walk = (!with_arg && allow_sync && drop_mode >= 2 && !script_throws && r.chance(1, 5)) ? 1 + (int)r.below(2) : 0; // 1 range-for, 2 post-increment walk
+        std::string desc = std::string(walk == 1 ? "[range-for walk] " : walk == 2 ? "[post-increment walk] " : "") + std::string(with_arg ? "generator<int,int> " : "generator<int> ") + "[" + g_script_str(W.scripts[0]) + "] " + (mt ? "pending awaits completed by either thread" : "single thread") + (drop_mode == 0 ? " dropped before start" : drop_mode == 1 ? " dropped at a yield" : "");
         std::string plan = T.plan(r, sites, (int)(sizeof sites / sizeof sites[0]));
         vf::set_crash_ctx(R.prop.c_str(), "generator_programs", o.seed, pn, desc.c_str());
         std::string err;
@@ -226,11 +242,11 @@ inline void generator_programs(const vf::opts &o, vf::report &R, vf::team &T, ui
                 vf::rng cr(vf::mix(pseed, 5));
                 if (mt) {
                     T.round([&](int tid) {
-                        if (tid == 0) { if (with_arg) g_consume<true>(W, *g1, cr, allow_sync, true); else g_consume<false>(W, *g0, cr, allow_sync, true); }
+                        if (tid == 0) { if (walk) g_consume_walk(W, *g0, walk - 1); else if (with_arg) g_consume<true>(W, *g1, cr, allow_sync, true); else g_consume<false>(W, *g0, cr, allow_sync, true); }
                         else if (tid == 1) g_resolver(W, pseed, tid);
                     });
                 } else {
-                    if (with_arg) g_consume<true>(W, *g1, cr, allow_sync, false); else g_consume<false>(W, *g0, cr, allow_sync, false);
+                    if (walk) g_consume_walk(W, *g0, walk - 1); else if (with_arg) g_consume<true>(W, *g1, cr, allow_sync, false); else g_consume<false>(W, *g0, cr, allow_sync, false);
                 }
                 if (!W.consumer_done.load()) err = "consumer never completed although every awaited operation was resolved";
                 // drop the generator now (parked at a yield, or finished)
@@ -269,6 +285,7 @@ inline void generator_programs(const vf::opts &o, vf::report &R, vf::team &T, ui
         R.sig(desc + " s" + st, nontrivial);
         for (int s : W.styles_used) R.cls(std::string("style: ") + gs_name(s));
         if (mt && has_pending) R.cls("programs_with_cross_thread_completion");
+        if (walk) R.cls(walk == 1 ? "whole_sequence_range_for" : "whole_sequence_post_increment_walk");
         if (drop_mode <= 1) R.cls("programs_dropping_the_generator_early");
         if (R.samples.size() < 4 && W.got.size() > 3) { std::string sn; for (int s : W.styles_used) sn += std::string(gs_name(s)) + ", "; R.sample(vf::jobj().kv("program", desc).kv("styles", sn).kv("observed", g_got_str(W.got)).str()); }
     }
